@@ -1730,17 +1730,16 @@ func c19NewPeer(ctx context.Context) (*c19Peer, error) {
 	c2sR, c2sW := io.Pipe()
 	s2cR, s2cW := io.Pipe()
 	go func() {
-		br := bufio.NewReaderSize(c2sR, 1<<16)
+		dec := json.NewDecoder(c2sR) // one JSON value at a time, whatever separates them
 		for {
-			line, err := br.ReadBytes('\n')
-			if err != nil {
-				return
-			}
 			var req struct {
 				ID     json.RawMessage `json:"id"`
 				Method string          `json:"method"`
 			}
-			if json.Unmarshal(line, &req) != nil || len(req.ID) == 0 {
+			if err := dec.Decode(&req); err != nil {
+				return
+			}
+			if len(req.ID) == 0 {
 				continue
 			}
 			res := `{}`
@@ -2070,6 +2069,23 @@ func c19Par[C any](cases []C, reps int, seed, stream uint64, f func(r *rand.Rand
 	return out
 }
 
+// c19Within runs f (session set-up; its context must outlive the call) with a deadline.
+func c19Within[T any](d time.Duration, f func() (T, error)) (T, error) {
+	type res struct {
+		v   T
+		err error
+	}
+	ch := make(chan res, 1)
+	go func() { v, err := f(); ch <- res{v, err} }()
+	select {
+	case r := <-ch:
+		return r.v, r.err
+	case <-time.After(d):
+		var zero T
+		return zero, fmt.Errorf("set-up did not finish within %v", d)
+	}
+}
+
 func TestVerif_C19(t *testing.T) {
 	in, outp := os.Getenv("VERIF_IN"), os.Getenv("VERIF_OUT")
 	if in == "" || outp == "" {
@@ -2208,7 +2224,7 @@ func TestVerif_C19(t *testing.T) {
 		sess := map[string]*c19Sess{}
 		for _, proto := range []string{c19Proto2025, "latest"} {
 			for _, feat := range []string{"bare", "full"} {
-				s, err := c19NewSess(ctx, proto, feat == "full")
+				s, err := c19Within(30*time.Second, func() (*c19Sess, error) { return c19NewSess(ctx, proto, feat == "full") })
 				if err != nil {
 					t.Fatalf("session %s/%s: %v", proto, feat, err)
 				}
@@ -2232,7 +2248,7 @@ func TestVerif_C19(t *testing.T) {
 		Rep int       `json:"rep"`
 	}
 	if vcCases := c19Load[c19VcCase](t, in, "cases_vc.ndjson"); len(vcCases) > 0 {
-		peer, err := c19NewPeer(ctx)
+		peer, err := c19Within(30*time.Second, func() (*c19Peer, error) { return c19NewPeer(ctx) })
 		if err != nil {
 			t.Fatalf("peer: %v", err)
 		}
